@@ -10,7 +10,9 @@
         op    = t,j | s,j,n0,n1 | p,j,n,p0,p1
      -> `ok N=<snodes> L=<slinks> M=<key>=<names>;...`
    skelora | <snodes> | <slinks> | <jExcl> | <pExcl> | <final snodes> | <final slinks> | <final map>
-     -> the executable form of `SkelInv` evaluated on the IMPLEMENTATION's before/after data: `ok` | `fail retained|demands|map`
+   merge | s|p | <pipe0> | <pipe1>     pipe = length,diam,rough,minor (decimal of the binary64 bit pattern),status
+     -> `ok <length> <diam> <rough> <minor> <status>`: `_series_merge_properties` / `_parallel_merge_properties` in Lean Float
+   (skelora) -> the executable form of `SkelInv` evaluated on the IMPLEMENTATION's before/after data: `ok` | `fail retained|demands|map`
 -/
 import WntrModel.Model.Morph
 open Wntr.Morph
@@ -167,12 +169,36 @@ def doSkelOracle (fs : List String) : String :=
     | _, _, _, _, _ => "bad-op"
   | _ => "bad-op"
 
+/-- binary64 values travel as the decimal of their bit pattern -/
+def parseF (s : String) : Option Float := (fun n => Float.ofBits (UInt64.ofNat n)) <$> (trim s).toNat?
+def showF (x : Float) : String := toString x.toBits.toNat
+
+def codeExp : MergeExp Float := { a := 4.87, b := 1.85, e := 0.54, c := 2.63 }
+
+def parseMPipe (s : String) : Option (MPipe Float) :=
+  match (s.splitOn ",").map trim with
+  | [l, d, c, m, st] => do some { length := ← parseF l, diam := ← parseF d, rough := ← parseF c, minor := ← parseF m, status := ← st.toNat? }
+  | _ => none
+
+/-- merge | s|p | <pipe0> | <pipe1>   (pipe = length,diam,rough,minor as bit patterns, status) -> `ok <length> <diam> <rough> <minor> <status>` -/
+def doMerge (fs : List String) : String :=
+  match fs with
+  | [k, a, b] =>
+    match parseMPipe a, parseMPipe b with
+    | some p0, some p1 =>
+      let ge := fun (x y : Float) => decide (x ≥ y)
+      let r := if k == "s" then seriesProps Float.pow codeExp ge p0 p1 else parallelProps Float.pow codeExp ge p0 p1
+      s!"ok {showF r.length} {showF r.diam} {showF r.rough} {showF r.minor} {r.status}"
+    | _, _ => "bad-op"
+  | _ => "bad-op"
+
 def handle (line : String) : String :=
   match (line.splitOn "|").map trim with
   | "split" :: fs => doSplit false fs
   | "splitpinned" :: fs => doSplit true fs
   | "skelrun" :: fs => doSkelRun fs
   | "skelora" :: fs => doSkelOracle fs
+  | "merge" :: fs => doMerge fs
   | _ => "bad-op"
 
 partial def loop (h : IO.FS.Stream) : IO Unit := do
